@@ -27,3 +27,25 @@ add("C03", "dense reference-matrix oracle over exhaustively enumerated windows; 
     "spans cover all stored rows and that the fill-lower sub-boxes tile the query box. Exhaustive for n within the "
     "bound, diagonal-biased sampling above it.",
     "DESIGN.md section 4 C03")
+add("C01", "reference-model oracle (PixelDict/Dense) at the API boundary over generated creation configurations",
+    "Each generated configuration (bin-table family x sparsity x storage mode x input form incl. empty chunks and "
+    "ArrayLoader x dtypes/extra columns x HDF5 filters x destination x metadata) is created with the real "
+    "create_cooler and read back through pixels(), matrix() dense/sparse/as_pixels and info via path, URI and open "
+    "handle; every value, dtype, index and metadata item is compared with the generated input. A conservation probe "
+    "on write_pixels checks nnz/total against the chunks consumed. Sampled inputs; evidence lists classes hit.",
+    "DESIGN.md section 4 C01")
+add("C02", "invariant at a hook: raw-h5py schema validator at every create() exit + final file scan; rlencode shadow probe",
+    "An exit hook on the real create() (all producers funnel through it, incl. temp chunk coolers, zoom levels, scool "
+    "cells, CLI loaders) re-opens each written collection with raw h5py and validates every clause of schema_v3 "
+    "(lengths vs nnz, strict order, range, triangularity, both offset indexes vs searchsorted, nbins/nchroms/sum, "
+    "bin-type/bin-size truthfulness, chroms/length vs last bins). Workloads: C01 inputs, random operation histories, "
+    "rlencode across block edges (function level, shadow re-execution with small blocks on every real call) and "
+    "three >1e6-pixel files placing the 1e6 block edge inside/on/one past a run start.",
+    "DESIGN.md section 4 C02")
+add("C06", "in-memory fold oracle over executions of one record multiset; partition/epoch probes; tempfile audit hook",
+    "For each generated record multiset (pixels repeated across chunks) the real unordered ingestion is executed under "
+    "many partitions, chunk orders, mergebuf values from 1 and max_merge values from 1 (single-pass and two-pass), "
+    "sorted or ensure_sorted; the raw pixel table of every execution must equal one exact in-memory fold. Probes "
+    "check that merge_breakpoints is a strictly increasing partition and that merge epochs are sorted, duplicate-free "
+    "and disjoint. A sys.addaudithook on tempfile.mkstemp plus a fresh-directory listing decide the temp-file clause.",
+    "DESIGN.md section 4 C06")
